@@ -51,7 +51,7 @@ theorem verify_tc (F : Facts) (T : TokOf) (v : V) (now : Int) (id : String) :
     (verify F T v now id).1.tc = (Cache.get F.se v.tc now id).1 ∨
     ((verify F T v now id).1.tc = Cache.set F.se (Cache.get F.se v.tc now id).1 now id 1 (T.exp id - now) ∧
       T.scratch id now = true ∧ (verify F T v now id).2 = true ∧ (Cache.get F.se v.tc now id).2.isSome = false) := by
-  unfold verify
+  unfold verify verifyWith
   simp only
   cases h1 : (Cache.get F.se v.tc now id).2.isSome with
   | true => simp
@@ -90,7 +90,7 @@ theorem verify_tcInv (F : Facts) (T : TokOf) (v : V) (now : Int) (id : String) (
 /-- a positive answer comes either from the cache or from a from-scratch verification now -/
 theorem verify_true (F : Facts) (T : TokOf) (v : V) (now : Int) (id : String) (hok : (verify F T v now id).2 = true) :
     (Cache.get F.se v.tc now id).2.isSome = true ∨ T.scratch id now = true := by
-  unfold verify at hok
+  unfold verify verifyWith at hok
   simp only at hok
   cases h1 : (Cache.get F.se v.tc now id).2.isSome with
   | true => exact Or.inl rfl
@@ -198,7 +198,7 @@ theorem revoke_immediate (F : Facts) (T : TokOf) (v : V) (tr now : Int) (id : St
       unfold expired
       cases hse : F.se <;> simp <;> omega
     simp [this]
-  unfold verify
+  unfold verify verifyWith
   simp only [hmiss, Bool.false_eq_true, if_false]
   cases (Limiter.allow F.r F.b (revoke F T v tr id).lim now).2 with
   | false => simp
@@ -219,7 +219,7 @@ theorem refused_not_performed (F : Facts) (T : TokOf) (v : V) (now : Int) (id : 
     (href : (Limiter.allow F.r F.b v.lim now).2 = false) :
     (verify F T v now id).2 = false ∧ (verify F T v now id).1.bl = v.bl ∧
     (verify F T v now id).1.tc = (Cache.get F.se v.tc now id).1 := by
-  unfold verify
+  unfold verify verifyWith
   simp [hmiss, href]
 
 theorem step_tcInv (F : Facts) (T : TokOf) (v : V) (op : Op) (last : Int) (hl : last ≤ op.time)
